@@ -185,7 +185,17 @@ def critical_flag(prog, dr):
             for cc, t in guards_through(prog, dr, f, c):
                 if branch_zero_test(cc, t, lambda v: (v.path() or '').startswith('G:')) == 'nonzero':
                     return _cmp_parts(cc)[0].path()
-    return None
+    # the warning may be guarded by a local copy of the flag: then the flag is the one global that blast() sets to 1 and
+    # smtp() clears to 0 (its effect on dropped()'s text is decided by exploration in C09.dropped_sites either way)
+    def consts(fname, value):
+        f_ = prog.resolve(fname, 'qmail-remote.c')
+        out = set()
+        for x in (f_.all_x() if f_ is not None else ()):
+            if x.k == 'asg' and x.op == '=' and x.args[1] is not None and x.args[1].const == value and (x.args[0].path() or '').startswith('G:'):
+                out.add(x.args[0].path())
+        return out
+    cand = consts('blast', 1) & consts('smtp', 0)
+    return next(iter(cand)) if len(cand) == 1 else None
 
 
 def encoder_sites(db, rep):
